@@ -304,14 +304,6 @@ Proof.
       (replace (N.pos p <=? 9223372036854775808) with true by (symmetry; apply N.leb_le; lia)); reflexivity.
 Qed.
 
-(* what may follow a number: the end of the input or an ASCII character that neither continues the number
-   nor is rejected right after one (in printed types and values: ',', ']', '}', ')', ' ', line feed) *)
-Definition num_stop (k : str) : bool :=
-  match k with
-  | [] => true
-  | b :: _ => (b <? 128) && negb (is_digit b || (b =? 46) || (b =? 101) || (b =? 69) || (b =? 120) || (b =? 88))
-  end.
-
 Lemma cn_loop_digits il t : forall f buf fz k,
   forallb is_digit t = true -> (length t < f)%nat -> num_stop k = true ->
   consume_number_loop il f (t ++ k) buf KInteger fz = LOk (KInteger, buf ++ t) k.
